@@ -58,13 +58,75 @@ def install():
     assert issubclass(runners.WorkerProcess, K.SimProcess)
     runners.multiprocessing = K.MultiprocessingShim
     files.xopen = simfs.sim_xopen
-    cli.open = simfs.sim_open
     ft = _FakeTime()
     cli.time = ft
     adapters.time = ft
     utils.time = ft
     _mods.update(runners=runners, adapters=adapters, cli=cli, files=files, time=ft)
+    _snapshot_module_state()
     _INSTALLED = True
+
+
+_GLOBAL_SNAPSHOT = []  # (container object, pristine deep copy)
+
+
+def _snapshot_module_state():
+    """
+    A real cutadapt run starts in a fresh interpreter. Simulated runs share one interpreter,
+    so every mutable container reachable as a module global, class attribute or function
+    default of a cutadapt module (caches, counters such as _generate_adapter_name's [1]) is
+    recorded here once and restored before every run.
+    """
+    import copy
+    import enum
+    import inspect
+
+    seen = set()
+
+    def note(obj):
+        if isinstance(obj, (dict, list, set)) and id(obj) not in seen:
+            seen.add(id(obj))
+            try:
+                _GLOBAL_SNAPSHOT.append((obj, copy.deepcopy(obj)))
+            except Exception:
+                pass
+
+    for modname, module in list(sys.modules.items()):
+        if not (modname == "cutadapt" or modname.startswith("cutadapt.")) or module is None:
+            continue
+        for name, val in list(vars(module).items()):
+            if name.startswith("__"):
+                continue
+            note(val)
+            if inspect.isclass(val) and issubclass(val, enum.Enum):
+                continue
+            if inspect.isclass(val) and getattr(val, "__module__", None) == modname:
+                for an, av in list(vars(val).items()):
+                    if not an.startswith("__"):
+                        note(av)
+                    f = getattr(av, "__func__", av)
+                    for d in (getattr(f, "__defaults__", None) or ()):
+                        note(d)
+            elif inspect.isfunction(val) and getattr(val, "__module__", None) == modname:
+                for d in (val.__defaults__ or ()):
+                    note(d)
+                for d in (val.__kwdefaults__ or {}).values():
+                    note(d)
+
+
+def _restore_module_state():
+    import copy
+
+    for obj, pristine in _GLOBAL_SNAPSHOT:
+        fresh = copy.deepcopy(pristine)
+        if isinstance(obj, dict):
+            obj.clear()
+            obj.update(fresh)
+        elif isinstance(obj, list):
+            obj[:] = fresh
+        else:
+            obj.clear()
+            obj.update(fresh)
 
 
 class _Stdout(io.TextIOWrapper):
@@ -123,6 +185,7 @@ def run_sim(argv, files, chooser, capacity=65536, feeder=True, step_cap=K.STEP_C
     cli = _mods["cli"]
     adapters = _mods["adapters"]
     # per-run reset of process-global state (DESIGN §1)
+    _restore_module_state()
     adapters._generate_adapter_name.__defaults__[0][0] = 1
     _mods["time"].t = 0.0
     root = logging.getLogger()
@@ -130,8 +193,8 @@ def run_sim(argv, files, chooser, capacity=65536, feeder=True, step_cap=K.STEP_C
     root.handlers = []
     recorder = _ErrorRecorder()
     root.addFilter(recorder)
-    fs = simfs.SimFS(files)
-    simfs.set_fs(fs)
+    simfs.populate(files)
+    argv = [simfs.to_real(a) for a in argv]
     out_buf = simfs.CapturedStdoutBuffer()
     saved_std = (sys.stdin, sys.stdout, sys.stderr)
     sys.stdin = _NoFilenoStdin("")
@@ -155,7 +218,7 @@ def run_sim(argv, files, chooser, capacity=65536, feeder=True, step_cap=K.STEP_C
                 sys.stdout.flush()
             except Exception:
                 pass
-            res.stderr = sys.stderr.getvalue()
+            res.stderr = simfs.to_sim(sys.stderr.getvalue())
             sys.stdin, sys.stdout, sys.stderr = saved_std
             for h in root.handlers:
                 try:
@@ -165,25 +228,24 @@ def run_sim(argv, files, chooser, capacity=65536, feeder=True, step_cap=K.STEP_C
             root.handlers = saved_handlers
             root.setLevel(saved_level)
             root.removeFilter(recorder)
-            simfs.set_fs(None)
             simfs._STDOUT_BUF = None
     except K.HarnessError:
         raise
     main = kern.tasks[0]
     res.outcome = kern.outcome
     res.exit = main.exitcode if kern.outcome == "finished" else None
-    res.files = fs.snapshot()
-    res.stdout = out_buf.getvalue()
+    res.files = simfs.snapshot()
+    res.stdout = out_buf.getvalue().replace(simfs.root().encode() + b"/", simfs.PREFIX.encode())
     res.choices = kern.choices
     res.enabled_sizes = kern.enabled_sizes
     res.steps = kern.step
     res.probes = kern.probes
     res.blocked = kern.blocked_report
     res.n_tasks = len(kern.tasks)
-    res.fs_events = fs.events
+    res.fs_events = None
     res.main_exc = main.exc_text
     res.markers = kern.markers
-    res.error_logs = recorder.messages
+    res.error_logs = [simfs.to_sim(m) for m in recorder.messages]
     res.alive_at_end = getattr(kern, "alive_at_main_exit", [])
     h = hashlib.sha1()
     for ev in kern.log:
